@@ -235,6 +235,10 @@ const c05Rule = "generated rule sets restricted to the generator's documented cl
 
 // RunC05 compares every generated lexer of the batch with the runtime lexer.
 func RunC05(t *testing.T, registry map[int]lexer.Definition, dataFile string) {
+	if os.Getenv("VERIF_AS_PROP") == "C04" {
+		runC04Generated(t, registry, dataFile)
+		return
+	}
 	r := vstat.For("C05")
 	r.SetRule(c05Rule)
 	data, err := os.ReadFile(dataFile)
@@ -408,4 +412,57 @@ func fmtToks(def lexer.Definition, ts []lexer.Token) string {
 		fmt.Fprintf(&sb, "%s%q@%d ", syms[t.Type], t.Value, t.Pos.Offset)
 	}
 	return sb.String()
+}
+
+const c04GenRule = "generated lexers (compile stage shared with C05): definitions of the generator's supported class x inputs walked through the " +
+	"state machine; every successful token stream of the generated lexer is validated against the input text alone (values, offsets, " +
+	"order, final EOF, concatenation when nothing is dropped, line/column recomputed from the offset, filename); non-trivial = >=2 lines, " +
+	">=1 multi-byte rune, >=3 tokens"
+
+// runC04Generated applies C04's validity predicate to the generated lexers of a batch.
+func runC04Generated(t *testing.T, registry map[int]lexer.Definition, dataFile string) {
+	r := vstat.For("C04")
+	r.SetRule(c04GenRule)
+	data, err := os.ReadFile(dataFile)
+	if err != nil {
+		t.Fatalf("harness: %v", err)
+	}
+	var defs []*C05Def
+	if err := json.Unmarshal(data, &defs); err != nil {
+		t.Fatalf("harness: %v", err)
+	}
+	failed := false
+	for _, d := range defs {
+		gen, ok := registry[d.ID]
+		if !ok || failed {
+			continue
+		}
+		r.Count("generated_lexers")
+		for _, inHex := range d.InputHex {
+			raw, _ := hex.DecodeString(inHex)
+			in := string(raw)
+			g := drain(gen, in, 0)
+			if g.hung || g.panicMsg != "" || g.err != nil {
+				r.Count("generated_lexing_failed_not_judged")
+				continue
+			}
+			r.Eval()
+			r.Count("kind_generated")
+			multiByte := strings.ToValidUTF8(in, "") != in || len([]rune(in)) != len(in)
+			if strings.Contains(in, "\n") && multiByte && len(g.toks) >= 3 {
+				r.NonTrivial(inHex+"|"+d.RS.String(), func() any { return map[string]any{"kind": "generated", "rules_text": d.RS.String(), "input_hex": inHex} })
+			}
+			if errs := lexgen.ValidateTokens(in, "f", g.toks, !d.RS.HasLowerCase()); len(errs) > 0 {
+				failed = true
+				c := map[string]any{"kind": "generated", "rules": d.RS, "input_hex": inHex, "filename": "f", "entry": "string", "rules_text": d.RS.String()}
+				b, _ := json.Marshal(c)
+				r.SaveFailure(&vstat.Failure{Property: "C04", Message: fmt.Sprintf("generated lexer, input %q: %s\n%s", in, strings.Join(errs, "; "), d.RS.String()), Case: b})
+				break
+			}
+		}
+	}
+	r.Flush()
+	if failed {
+		t.FailNow()
+	}
 }
